@@ -129,6 +129,21 @@ pub(crate) fn add_task(t: Task) -> usize {
     }
 }
 
+/// Harness hook: when set, `spawn` does not run the future; the `JoinHandle` completes with
+/// the value the hook returns (a boxed `T`), or with a `JoinError` if it returns `None`.
+/// This abstracts "the spawned job ran and produced outcome X" for harnesses whose subject is
+/// the code *around* the job (the daemon loop).
+pub type SpawnOverride = fn() -> Option<Box<dyn std::any::Any>>;
+static mut SPAWN_OVERRIDE: Option<SpawnOverride> = None;
+
+pub fn set_spawn_override(f: Option<SpawnOverride>) {
+    unsafe { SPAWN_OVERRIDE = f }
+}
+
+pub(crate) fn spawn_override() -> Option<SpawnOverride> {
+    unsafe { SPAWN_OVERRIDE }
+}
+
 pub fn task_count() -> usize {
     unsafe { NTASKS }
 }
